@@ -521,6 +521,7 @@ func (db *MultiBucketBackend) deleteObjectLocked(bucketName, objectName string) 
 	if err := db.bucketFs.Remove(filepath.FromSlash(fullPath)); err != nil && !os.IsNotExist(err) {
 		return err
 	}
+	removeEmptyParents(db.bucketFs, bucketName, fullPath)
 
 	if err := db.metaStore.deleteMeta(db.metaStore.metaPath(bucketName, objectName)); err != nil {
 		return err
